@@ -151,6 +151,9 @@ type analyzer struct {
 	summaries map[*fn][]string
 	warmOK    map[string]bool
 	walking   map[*ast.FuncLit]bool
+	confined  map[*fn]bool                  // receiver-confined methods (local.go)
+	recvObj   map[*fn]types.Object          // their receivers
+	locals    map[*fn]map[types.Object]bool // call-local objects per function
 }
 
 var pureStd = map[string]bool{
